@@ -351,3 +351,32 @@ func (g *Gen) specRecursive(name string) bool {
 	sp := g.CS.Specs[name]
 	return sp != nil && sp.Rec
 }
+
+// Loops describes the loops of a function: ordinal, header block, source position, loop-carried variables.
+func (g *Gen) Loops(pkgPath, name string) []string {
+	fn := g.FindFunc(&Contract{PkgPath: pkgPath, Func: name})
+	if fn == nil {
+		return []string{"function not found"}
+	}
+	fc := &fnCtx{g: g, fn: fn}
+	fc.findLoops()
+	var out []string
+	for _, h := range fc.loopOrder {
+		li := fc.loops[h]
+		var vars []string
+		for _, ins := range h.Instrs {
+			if phi, ok := ins.(*ssa.Phi); ok {
+				vars = append(vars, phi.Comment)
+			}
+		}
+		pos := ""
+		for _, ins := range h.Instrs {
+			if ins.Pos().IsValid() {
+				pos = g.Prog.Fset.Position(ins.Pos()).String()
+				break
+			}
+		}
+		out = append(out, fmt.Sprintf("loop %d: block %d (%s) %s vars=%v", li.ord, h.Index, h.Comment, pos, vars))
+	}
+	return out
+}
